@@ -58,6 +58,9 @@ func (c *chunkedBodyWriter) Write(p []byte) (n int, err error) {
 			return
 		}
 		c.wroteHeader = true
+		if err = c.writeBuffered(); err != nil {
+			return
+		}
 	}
 	if len(p) == 0 {
 		// a zero-length chunk would terminate the chunked body
@@ -67,6 +70,18 @@ func (c *chunkedBodyWriter) Write(p []byte) (n int, err error) {
 		return
 	}
 	return len(p), nil
+}
+
+// writeBuffered sends, as the first chunk, what was put into the response's body
+// buffer before this writer took over (flushed: the buffer is not ours to keep).
+func (c *chunkedBodyWriter) writeBuffered() error {
+	if c.r.IsBodyStream() {
+		return nil
+	}
+	if b := c.r.BodyBytes(); len(b) > 0 {
+		return ext.WriteChunk(c.w, b, true)
+	}
+	return nil
 }
 
 func (c *chunkedBodyWriter) Flush() error {
@@ -87,6 +102,9 @@ func (c *chunkedBodyWriter) Finalize() error {
 				return
 			}
 			c.wroteHeader = true
+			if c.finalizeErr = c.writeBuffered(); c.finalizeErr != nil {
+				return
+			}
 		}
 		c.finalizeErr = ext.WriteChunk(c.w, nil, true)
 		if c.finalizeErr != nil {
